@@ -13,14 +13,16 @@ LEVEL_TEXT = ('bounded symbolic execution (CrossHair/z3) of depfixer.tokenize/em
               'prefixes that put the state machine in each of its states) against an independent '
               'reader of the depfile grammar: the appended text is exactly one prerequisite-free rule '
               'per dependency, spelled verbatim; well-formed input is never rejected; the grammar and '
-              'the deleted-header consequence are validated with the real gcc and make per run')
-LEVEL_NOTE = ('claimed for the depfile kernel only: which objects the real compiler rebuilds after an '
+              'the deleted-header consequence are validated with the real gcc and make per run; and of '
+              'the `-include <depfile>` line the real Makefile writer emits for every object (names up '
+              'to 2 (3) characters): Make reads exactly the depfile the compiler wrote')
+LEVEL_NOTE = ('claimed for the depfile kernel and the include line only: which objects the real compiler rebuilds after an '
               'edit history, program output and clean are decided by gcc+make runs, not by a solver; '
               'rdep (depfile grammar) is a reference model validated against depfiles written by the '
               'real gcc 12; header names containing % : ; = | (or ending in & or a blank) cannot be '
               'represented in a gcc depfile read by GNU Make at all and are excluded')
 HARNESS = 'vpx.harness.c07'
-FUNCTIONS = ['bfg9000.depfixer.tokenize', 'bfg9000.depfixer.emit_deps']
+FUNCTIONS = ['bfg9000.depfixer.tokenize', 'bfg9000.depfixer.emit_deps', 'bfg9000.backends.make.syntax.Makefile.include/_write (include lines)']
 OUTSIDE = ['actual rebuild sets after edit histories', 'texts longer than the bound',
            'depfile flavours other than gcc/clang -MMD (msvc /showIncludes is handled by ninja)',
            'double-colon rules', 'a backslash-newline glued to a word without a blank']
@@ -56,6 +58,13 @@ def obligations(tier, kf):
                     for m in ('depfixer_drop_escape', 'depfixer_no_final_newline_rule',
                               'depfixer_colon_anywhere'):
                         obs.append(ob.mutant(m))
+    # the depfile is only of use if Make reads it: the `-include <depfile>` line written for every
+    # object (the position is shared with C04, harness vpx.harness.c04.mi_include)
+    for n in (1, 2) if tier == 'quick' else (1, 2, 3):
+        obs.append(Ob('mi_include', dict(kf, N=n, shape=0, rooti=0, excl_src=';='), {1: 400, 2: 900, 3: 3000}[n],
+                      module='vpx.harness.c04', desc='-include line of the depfile, object d/<c>.o.d, |c|==%d' % n))
+    inc = Ob('mi_include', dict(kf, N=1, shape=0, rooti=0, excl_src=';='), 400, module='vpx.harness.c04')
+    obs += [inc.twin(), inc.mutant('make_include_double_escape')]
     return obs
 
 
@@ -132,3 +141,10 @@ def conformance(tier):
                     bad2.append((name, r.stderr.decode()[:120]))
     return [('rdep grammar vs depfiles written by real gcc', agree, skipped, bad),
             ('deleted header does not stop real make after real emit_deps', agree2, skipped2, bad2)]
+
+
+def classify(ob, cex):
+    c = cex['args'][0]
+    if ob.fn == 'mi_include' and isinstance(c, str) and (':' in c or '%' in c):
+        return 'C07-F15'
+    return None
